@@ -420,6 +420,60 @@ class SymKeyDict(dict):
         raise Unsupported(f"dict.{name} on a dict with symbolic keys")
 
 
+class CachedFn:
+    """functools.lru_cache / cache around an interpreted function: results are remembered per argument tuple, keys are
+    compared the way a dict compares them — identity, else the class's interpreted __eq__ (a class that defines
+    __eq__ without __hash__ is unhashable), else native ==.  (Eviction is not modelled: maxsize is unbounded.)"""
+
+    _pyvc_closure = True
+
+    def __init__(self, interp, fn):
+        self.interp, self.fn = interp, fn
+        self.entries = []
+        self.__name__ = getattr(fn, "__name__", "cached")
+        self.qual = getattr(fn, "qual", None)
+
+    def _eq(self, a, b):
+        it = self.interp
+        if a is b:
+            return True
+        if isinstance(a, IObj) or isinstance(b, IObj):
+            if not (isinstance(a, IObj) and isinstance(b, IObj)):
+                return False
+            m, _ = a.cls.lookup("__eq__")
+            if m is None:
+                if a.cls.dataclass and a.cls.dataclass.get("eq", True):
+                    return it.truth(a == b)
+                return False
+            h, _ = a.cls.lookup("__hash__")
+            if h is None:
+                raise PyExc(TypeError, (f"unhashable type: {a.cls.name!r}",))
+            r = it.call(m, [a, b], {})
+            if r is NotImplemented:
+                return False
+            return it.truth(r)
+        if isinstance(a, (tuple, list)) and isinstance(b, (tuple, list)) and type(a) is type(b):
+            return len(a) == len(b) and all(self._eq(x, y) for x, y in zip(a, b))
+        try:
+            return it.truth(it.compare(ast.Eq(), a, b))
+        except Unsupported:
+            return False
+
+    def __call__(self, *args, **kwargs):
+        key = (tuple(args), tuple(sorted(kwargs.items())))
+        for k2, v in self.entries:
+            if len(k2[0]) == len(key[0]) and len(k2[1]) == len(key[1]) and all(self._eq(x, y) for x, y in zip(k2[0], key[0])) \
+                    and all(n1 == n2 and self._eq(x, y) for (n1, x), (n2, y) in zip(k2[1], key[1])):
+                self.interp.ctx.effect("cache-hit", self.__name__)
+                return v
+        v = self.interp.call(self.fn, list(args), dict(kwargs))
+        self.entries.append((key, v))
+        return v
+
+    def cache_clear(self):
+        self.entries = []
+
+
 class OpaqueFn:
     """An uninterpreted function value: may be passed around and wrapped in functools.partial, never executed."""
 
@@ -463,7 +517,8 @@ _CMPOPS = {
     ast.Gt: operator.gt, ast.GtE: operator.ge,
 }
 
-SKIP_DECORATORS = {"overload", "lru_cache", "cache", "abstractmethod", "wraps", "cached_property_placeholder"}
+SKIP_DECORATORS = {"overload", "abstractmethod", "wraps", "cached_property_placeholder"}
+CACHE_DECORATORS = {"lru_cache", "cache", "functools.lru_cache", "functools.cache"}
 DROPPED_CALL_PREFIXES = ("logger.", "logging.")
 
 
@@ -538,6 +593,9 @@ class Interp:
         for dec in reversed(node.decorator_list):
             dn = _dec_name(dec)
             if dn in SKIP_DECORATORS:
+                continue
+            if dn in CACHE_DECORATORS:
+                v = CachedFn(self, v)
                 continue
             if dn == "property":
                 v = IProperty(v)
@@ -684,7 +742,7 @@ class Interp:
             return BoundMethod(m.fn, cls)
         if isinstance(m, IStaticMethod):
             return m.fn
-        if isinstance(m, Closure):
+        if isinstance(m, (Closure, CachedFn)):
             return BoundMethod(m, obj)
         return m
 
